@@ -369,8 +369,8 @@ impl Components {
                 q_out_frac_by_srv.insert(*service, values);
             }
 
-            // Elimina componentes de auxiliares existentes
-            self.data.retain(|c| !c.is_aux());
+            // Elimina componentes de auxiliares existentes de este sistema
+            self.data.retain(|c| !(c.is_aux() && c.has_id(id)));
 
             // Incorpora nuevos auxiliares con reparto calculado por servicios
             for service in &out_services {
